@@ -8,18 +8,27 @@ mode flags that survive AssembleFile_InitPass), step machine spec/Driver_MC.tla.
     {ok, err, forward reference, EXPECT, flag f, probe f, 8 constructs left open (IF 0/IF 1/MACRO/REPT/SECTION/
     STRUCT/SAVE/PHASE)} x -maxerrors {0,1}: FreshStart (every file starts from Fresh({})), Independent
     (result(f | history) = AsmFile(f) alone), MachineIsOutcome and the C02 clauses.
-    Driver_MC_Leaky.cfg models the pinned tree (Leaky = {"dotted"}): TLC must find the Independent counterexample.
+    Driver_MC_Leaky.cfg (Leaky = {"dotted"}, the tree as originally pinned) and Driver_MC_LeakyCpu.cfg (Leaky =
+    {"switchocc"}, SetCPUCore forgetting SwitchIsOccupied): TLC must find the Independent counterexample.
 (G) generated histories: Driver_Gen_Hist.cfg = transition cover with a VIEW that distinguishes what the predecessor
     did (flags set, constructs left open, EXPECT pending, error), predecessor <= 2 line classes, successor 1
     (thorough 2) over 9 mode flags (DOTTEDSTRUCTS, RELAXED, PADDING, SUPMODE, ORG, RADIX, CHARSET, a symbol, CPU)
-    and their probes, 2 tables (a macro, a function: defined by the predecessor, used by the successor).  Rendered in Z80 / 8051 / 68000 / "no CPU statement" dialects (seed-chosen per file), every
+    and their probes, 2 tables (a macro, a function: defined by the predecessor, used by the successor) and the
+    per-target state SetCPUCore clears (SWITCH/PAGE/SHIFT occupied by the OLMS-50 / SX20 / KENBAK targets, the table
+    of per-target ON/OFF instructions): the predecessor visits such a target, the successor uses SWITCH..CASE / PAGE /
+    SHIFT / an ON/OFF instruction of the visited target.  Rendered in Z80 / 8051 / 68000 / "no CPU statement" dialects (seed-chosen per file), every
     file with the same block of definitions (macro, function, structure, symbol, section) so that surviving tables
     collide.  `asl f1 f2` is compared with TLC's Outcome (status, kept files, summary, channel counts) and,
     verdict-bearing for C18, file by file with `asl f1` / `asl f2`: code file bytes, <name>.log (-E), the
     per-file section of the console output (time masked), and the exit status composed from the solo statuses.
-    golden corpus: quick = every one of the 201 sources once as predecessor and once as successor of a seed-chosen
-    partner with identical asflags; thorough = all ordered pairs with identical asflags (36 k) + 1500 seed-chosen
-    triples.  generated failing / polluting predecessors x golden successors (quick 1, thorough 8 successors per
+    golden corpus, CHAINS (both tiers): `asl f1 f2 ... fN` in ONE invocation per group of identical asflags (the 191
+    sources without asflags in one chain), forward, reversed and 3 (thorough 8) seeded permutations, compared member
+    by member (every output below the member's directory: code file, <name>.log, share file) and as a whole (exit
+    status, console) with the solo runs.  One chain covers every (earlier, later) pair of its order with the other
+    sources in between, so the quick tier covers all ~36 k ordered pairs "through intermediates" in both directions;
+    a member that differs is localised (every predecessor alone, then delta debugging over the predecessor list) and
+    the responsible pair is what the VIOLATION names.  Direct neighbours: quick = every source once first and once
+    second with a seed-chosen partner; thorough = all ordered pairs with identical asflags (36 k) + 1500 triples.  generated failing / polluting predecessors x golden successors (quick 1, thorough 8 successors per
     predecessor class).  Compared: every output file, stdout, stderr, exit status against the solo runs.
 (V) Driver_Trace on the multi-file runs: FILE snapshot (ifasm=1, no SAVE stack, no input tag, stale pointers =
     exactly the residue of the previous file), every PASS event shows the state of the first pass of the
@@ -39,7 +48,9 @@ Mutations of the real code (selftest/b218_mutants.py, scratch copies, all compil
 reported as VIOLATION by the quick tier: RELAXED kept from the previous file; IfAsm initialised only for the first
 file; RadixBase not reset; ClearMacroList dropped (caught through golden pairs); function list kept (ClearFunctionList
 and the list head reset dropped); both clean-ups of the EXPECT list dropped; default CPU taken from the previous file;
-GlobErrFlag cleared by a later successful file; symbol table kept.  Equivalent mutants met on the way (no behaviour
+GlobErrFlag cleared by a later successful file; symbol table kept; SwitchIsOccupied / PageIsOccupied dropped from the
+reset in SetCPUCore (found by the chains: t_olms50 somewhere before a source using SWITCH / PAGE, localised to that
+pair; and by the generated visit/probe histories); ClearONOFF dropped from UnsetCPU.  Equivalent mutants met on the way (no behaviour
 change, documented in the mutant file): dropping only one of two redundant resets (EXPECT list, FirstFunction/
 FirstSymbol + Clear...List), DoPadding default in InitPass (every SwitchTo_xxx sets it again).
 """
@@ -55,6 +66,9 @@ from vlib.report import Report
 
 PID = "C18"
 QUICK_TWO = 2000
+THOROUGH_MAX = 200000
+CHAIN_MAX = 240          # files per invocation (cmdarg.c: MAXPARAM = 256 arguments)
+CHAIN_LOCALISE = 6       # differing members of one chain whose responsible predecessor is searched
 COLLECT = (".p", ".log", ".lst", ".h", ".map")
 _PROGRESS = re.compile(r"^[^\s()]+\(\d+\)$")        # "file(line)" progress display, appears depending on speed
 _TIME = re.compile(r"(?:\d+ (?:hours?|minutes?), )*\d+[.,]\d\d seconds? assembly time")
@@ -254,8 +268,9 @@ def corpus_job(ts, extra_files=None, events=None, pre=None):
         if _dir(t) not in seen:
             seen.add(_dir(t))
             copies.append((t[1], _dir(t)))
-    return {"copy": copies, "files": dict(extra_files or {}), "argv": list(flags) + ["-q", "-i", INCLUDE] + names,
-            "collect": COLLECT, "events": events, "timeout": 180}
+    # -E last (no argument): diagnostics of every file go to its own <name>.log, so they can be compared per file
+    return {"copy": copies, "files": dict(extra_files or {}), "argv": list(flags) + ["-q", "-i", INCLUDE] + names + ["-E"],
+            "collect": COLLECT, "events": events, "timeout": 300}
 
 
 def compare_corpus(multi, solos, ts=None):
@@ -290,6 +305,112 @@ def sets_dotted(t):
         return False
 
 
+def member_diffs(t, multi, solo_res):
+    """differences of one member of a joint run against its solo run: every output below its directory"""
+    want = _solo_files(t, solo_res)
+    pre = _dir(t) + "/"
+    got = {k: v for k, v in multi.files.items() if k.startswith(pre)}
+    return ["%s differs (solo %s, joint %s)" % (k, _short(want.get(k)), _short(got.get(k)))
+            for k in sorted(set(want) | set(got)) if want.get(k) != got.get(k)]
+
+
+def localise(bld, solo, preds, m, budget=80):
+    """which predecessors make member m differ: every predecessor alone first, then delta debugging over the list
+    (order kept).  -> (minimal predecessor list that still reproduces it, number of runs spent)"""
+    def differs(res):
+        return bool(member_diffs(m, res, solo[m[0]])) or res.rc not in (0, 2)
+    pairs = drvrun.run_many(bld, [corpus_job([p, m]) for p in preds])
+    spent = len(preds)
+    single = [p for p, res in zip(preds, pairs) if differs(res)]
+    if single:
+        return [single[-1]], spent, [p[0] for p in single]
+    cur, n = list(preds), 2
+    while len(cur) >= 2 and spent < budget:
+        size = max(1, len(cur) // n)
+        chunks = [cur[i:i + size] for i in range(0, len(cur), size)]
+        cands = chunks + [[x for x in cur if x not in c] for c in chunks]
+        res = drvrun.run_many(bld, [corpus_job(c + [m]) for c in cands])
+        spent += len(cands)
+        hit = [c for c, rr in zip(cands, res) if c and differs(rr)]
+        if hit:
+            cur = min(hit, key=len)
+            n = max(2, n - 1) if len(cur) > 1 else 2
+        elif n >= len(cur):
+            break
+        else:
+            n = min(len(cur), n * 2)
+    return cur, spent, []
+
+
+def run_chains(rep, bld, tier, groups, solo, execs):
+    """asl f1 f2 ... fN in ONE invocation per group of identical asflags: forward, reversed and seeded permutations.
+    One chain covers every (earlier, later) pair in its direction, with the other sources in between."""
+    r = rng("c18/chains")
+    chains = []
+    for g in groups.values():
+        if len(g) < 2:
+            continue
+        base = sorted(g, key=lambda t: t[0])
+        orders = [base, base[::-1]]
+        for _ in range(3 if tier == "quick" else 8):
+            x = list(base)
+            r.shuffle(x)
+            orders.append(x)
+        for o in orders:
+            for i in range(0, len(o), CHAIN_MAX):           # cmdarg.c accepts at most 256 arguments
+                if len(o[i:i + CHAIN_MAX]) >= 2:
+                    chains.append(o[i:i + CHAIN_MAX])
+    with Phase("corpus chains: %d invocations of up to %d files" % (len(chains), max(len(c) for c in chains))):
+        res = drvrun.run_many(bld, [corpus_job(c, events="file,diag" if i == 0 else None) for i, c in enumerate(chains)])
+    pairs_covered = sum(len(c) * (len(c) - 1) // 2 for c in chains)
+    rep.part("corpus_chains", invocations=len(chains), files_per_chain=max(len(c) for c in chains),
+             ordered_pairs_covered_through_intermediates=pairs_covered)
+    reported = set()
+    for c, m in zip(chains, res):
+        rep.evaluated()
+        rep.distinct("chain:" + ">".join(t[0] for t in c), True)
+        if m.timeout or m.sig is not None or m.rc not in (0, 2, 3):
+            rep.violation("chain of %d golden sources ended abnormally (rc=%s signal=%s timeout=%s)"
+                          % (len(c), m.rc, m.sig, m.timeout), case={"sequence": [t[0] for t in c]},
+                          files={"argv": " ".join(corpus_job(c)["argv"]), "stderr.txt": m.err[-3000:]},
+                          key={"kind": "corpus-chain", "abnormal": True})
+            continue
+        bad = [(k, t) for k, t in enumerate(c) if member_diffs(t, m, solo[t[0]])]
+        if m.rc == 3:
+            # a fatal error ended the invocation: the first member that differs is the one that met it (golden sources
+            # have no fatal errors alone); the members after it were never assembled
+            bad = bad[:1]
+        exp_rc = 2 if any(solo[t[0]].rc == 2 for t in c) else 0
+        exp_out = "".join(solo[t[0]].out for t in c)
+        if not bad and (m.rc != exp_rc or m.out != exp_out or m.err != "".join(solo[t[0]].err for t in c)):
+            rep.violation("chain of %d golden sources: exit status / console output differ from the solo runs "
+                          "(status %s, composed %s)" % (len(c), m.rc, exp_rc), case={"sequence": [t[0] for t in c]},
+                          files={"argv": " ".join(corpus_job(c)["argv"]), "stdout.txt": m.out[-3000:]},
+                          key={"kind": "corpus-chain", "abnormal": False})
+        for (k, t) in bad[:CHAIN_LOCALISE]:
+            if t[0] in reported:
+                continue
+            reported.add(t[0])
+            culprit, spent, singles = localise(bld, solo, c[:k], t)
+            seq = culprit + [t]
+            rep.violation("golden source %s assembles differently after %s in the same invocation (found in a chain of %d "
+                          "files at position %d, localised with %d runs%s): %s"
+                          % (t[0], " ".join(x[0] for x in culprit), len(c), k + 1, spent,
+                             ("; each of %s alone reproduces it" % singles) if len(singles) > 1 else "",
+                             "; ".join(member_diffs(t, m, solo[t[0]]))[:800]),
+                          case={"sequence": [x[0] for x in seq], "flags": t[3], "chain": [x[0] for x in c[:k + 1]]},
+                          files={"argv": " ".join(corpus_job(seq)["argv"])},
+                          key={"kind": "corpus", "pred_dotted": any(sets_dotted(x) for x in culprit),
+                               "pred": "+".join(x[0] for x in culprit)})
+        if len(bad) > CHAIN_LOCALISE:
+            rep.part("corpus_chains", further_members_differing=[t[0] for (_, t) in bad[CHAIN_LOCALISE:]][:40])
+        if not bad and m.trace is not None:
+            n = drvtrace.count_files(m.trace)
+            o = {"werror": "-Werror" in c[0][3], "suppw": "-w" in c[0][3]}
+            execs.append((drvtrace.to_events(m.trace, o, m.rc, [("%s/%s.p" % (_dir(t), t[0])) in m.files for t in c[:n]]),
+                          "corpus chain of %d" % len(c)))
+
+
 def run_corpus(rep, bld, tier, execs):
     tests = aslrun.corpus()
     groups = collections.defaultdict(list)
@@ -302,6 +423,7 @@ def run_corpus(rep, bld, tier, execs):
         rep.drift("golden sources that do not assemble alone: %s" % alone_bad[:10])
     seqs = []
     r = rng("c18/corpus")
+    run_chains(rep, bld, tier, groups, solo, execs)
     if tier == "quick":
         for g in groups.values():
             if len(g) == 1:                   # no partner with the same options: the source after a copy of itself
@@ -312,7 +434,7 @@ def run_corpus(rep, bld, tier, execs):
                 r.shuffle(perm)
                 if all(a[0] != b[0] for a, b in zip(g, perm)):
                     break
-            seqs += [(a, b) for a, b in zip(g, perm)]     # every source once first, once second
+            seqs += [(a, b) for a, b in zip(g, perm)]     # direct neighbours: every source once first, once second
     else:
         for g in groups.values():
             seqs += [(a, b) for a in g for b in g if a[0] != b[0]]
@@ -366,8 +488,8 @@ def run_gen_corpus(rep, bld, tier, hs, tests, groups, solo):
     with Phase("generated predecessor x golden successor: %d joint runs" % len(cases)):
         res = drvrun.run_many(bld, [corpus_job([t], extra_files={"p1.asm": text}, pre=["p1.asm"]) for (f, dl, text, t) in cases])
         psolo_keys = sorted({text for (_, _, text, _) in cases})
-        psolo = dict(zip(psolo_keys, drvrun.run_many(bld, [{"files": {"p1.asm": x}, "argv": ["-q", "-i", INCLUDE, "p1.asm"],
-                                                            "collect": COLLECT, "timeout": 30} for x in psolo_keys])))
+        psolo = dict(zip(psolo_keys, drvrun.run_many(bld, [corpus_job([], extra_files={"p1.asm": x}, pre=["p1.asm"])
+                                                           for x in psolo_keys])))
     bad = []
     for (f, dl, text, t), m in zip(cases, res):
         rep.evaluated()
@@ -417,6 +539,12 @@ def main(tier):
              note="Leaky = {dotted} as coded on the pinned tree: Independent must fail")
     if not lk.violation or "Independent" not in lk.violation:
         raise CheckError("the leaky model does not reproduce the dependence between files: %r" % (lk.violation or "")[:300])
+    lk2 = tlc.must(tlc.run("Driver_MC", "Driver_MC_LeakyCpu.cfg", workers=1, timeout=600, mem="4g", collect=False),
+                   "Driver_MC(LeakyCpu)")
+    rep.part("Driver_MC(Driver_MC_LeakyCpu.cfg)", expected_counterexample=bool(lk2.violation), distinct_states=lk2.distinct,
+             note="Leaky = {switchocc}: SetCPUCore forgetting SwitchIsOccupied: Independent must fail")
+    if not lk2.violation or "Independent" not in lk2.violation:
+        raise CheckError("the per-target leak model does not reproduce the dependence: %r" % (lk2.violation or "")[:300])
     # (G) ---------------------------------------------------------------------------------------
     with Phase("TLC Driver_Gen history cover"):
         cov = tlc.must(tlc.run("Driver_Gen", "Driver_Gen_Hist.cfg" if tier == "quick" else "Driver_Gen_Hist2.cfg",
@@ -432,6 +560,11 @@ def main(tier):
         two = [t for t in trs if len(t["files"][0]) != 1]
         rng("c18/sample").shuffle(two)
         trs = one + two[:QUICK_TWO]
+    elif len(trs) > THOROUGH_MAX:
+        one = [t for t in trs if len(t["files"][0]) == 1 and len(t["files"][-1]) == 1]
+        two = [t for t in trs if not (len(t["files"][0]) == 1 and len(t["files"][-1]) == 1)]
+        rng("c18/sample").shuffle(two)
+        trs = one + two[:max(0, THOROUGH_MAX - len(one))]
     rep.part("generation", histories_available=navail, histories_run=len(trs))
     execs = []
     hs = run_histories(rep, bld, trs, tier, execs)
